@@ -335,6 +335,25 @@ class Module:
             raise AnalysisError(f"anchor missing: class {name} in {self.relpath}")
 
 
+class _LazySources(dict):
+    """relpath -> text, read on demand."""
+    def __init__(self, root, known):
+        super().__init__(known)
+        self._root = root
+
+    def items(self):
+        for k in list(self.keys()):
+            yield k, self[k]
+
+    def __getitem__(self, k):
+        v = dict.__getitem__(self, k)
+        if v is None:
+            with open(os.path.join(self._root, k), encoding="utf-8") as fh:
+                v = fh.read()
+            dict.__setitem__(self, k, v)
+        return v
+
+
 class Repo:
     def __init__(self, root: str = None, overrides: Optional[Dict[str, str]] = None):
         self.root = root or REPO_ROOT
@@ -349,6 +368,16 @@ class Repo:
     def _load(self):
         pkg_dir = os.path.join(self.root, PKG)
         count = 0
+        from . import alpha
+
+        srcs = {}
+        for dirpath, dirnames, filenames in os.walk(pkg_dir):
+            for fn in filenames:
+                if fn.endswith(".py"):
+                    rel = os.path.relpath(os.path.join(dirpath, fn), self.root)
+                    srcs[rel] = None
+        srcs.update(self.overrides)
+        alpha.begin_repo(_LazySources(self.root, srcs))
         for dirpath, dirnames, filenames in os.walk(pkg_dir):
             dirnames.sort()
             for fn in sorted(filenames):
